@@ -46,7 +46,7 @@ def tables(ctx, rep):
                     break
             rep.ob('inherent map_keycode agrees with the trait method', 1, 0 if bad is not None else 1)
             if bad is not None:
-                k, m_, h = bad // 1024, (bad % 1024) // 2, bad % 2
+                k, m_, h = bad // ti.stride, (bad % ti.stride) // ti.nm, bad % ti.nm
                 rep.finding('%s layout=%s inherent-map_keycode-shadows-trait-method' % (rep.prop, name.split('::')[-1]),
                             'inherent %s is what `layout.map_keycode(..)` calls; for %s mods=%s it gives %s where the KeyboardLayout impl gives %s' % (
                                 inh, ctx.keycodes[k], mods_str(ctx, m_), show_out(ctx, ti.out[bad]), show_out(ctx, tt.out[bad])))
